@@ -61,11 +61,15 @@ class GChunks:
     def __pyvc_getitem__(self, eng, s):
         n = z3.Length(self.seq)
         if isinstance(s, slice):
-            if s.step is not None or s.stop is not None or not isinstance(s.start, int) or s.start < 0:
+            start = eng.conc(s.start) if isinstance(s.start, Sym) else s.start
+            if s.step is not None or s.stop is not None or start is None or (isinstance(start, int) and start < 0):
                 raise Unsupported('chunk slice')
-            return GChunks(z3.Extract(self.seq, z3.IntVal(s.start), n - s.start))
-        if isinstance(s, int):
-            idx = n + s if s < 0 else z3.IntVal(s)
+            zs = Z(start)
+            return GChunks(z3.Extract(self.seq, zs, n - zs))
+        if isinstance(s, Sym):
+            s = eng.conc(s)
+        if isinstance(s, (int, Sym)):
+            idx = (n + s if s < 0 else z3.IntVal(s)) if isinstance(s, int) else z3.If(Z(s) < 0, n + Z(s), Z(s))
             if not eng.fork(z3.And(idx >= 0, idx < n)):
                 raise RaiseEx(IndexError('list index out of range'))
             return GId(z3.Extract(self.seq, idx, z3.IntVal(1)))
